@@ -50,8 +50,9 @@ Fixpoint spec_sel (user obs : sel) {struct user} : bool :=
       && (if has_typename sub then go sub sub'
           else match sub' with
                | SField ta tn _ _ te [] _ :: rest =>
-                   if str_eqb tn typename_name
-                   then str_eqb ta typename_name && N.eqb te 0 && go sub rest
+                   (* a bare `__typename` (own response key) that the user's set does not have *)
+                   if str_eqb tn typename_name && str_eqb ta typename_name
+                   then N.eqb te 0 && go sub rest
                    else go sub sub'
                | _ => go sub sub'
                end)
